@@ -307,7 +307,7 @@ def gen_tree(rng, cfg=None):
         ents = manifests[mp]['entries']
         if rng.random() < 0.15:
             ents.append({'tag': 'DIST', 'path': 'dist-%d.tar' % rng.randrange(9), 'c': 'd', 'hashes': ['SHA512']})
-        if rng.random() < 0.12:
+        if rng.random() < cfg.get('p_dist_same_name', 0.12):
             # a distfile that shares its name with a file listed in the same Manifest
             # (e.g. once copied into the package directory)
             same = [e['path'] for e in ents if e.get('tag') in ('DATA', 'MISC', 'EBUILD') and '/' not in e.get('path', '/')]
